@@ -5,8 +5,8 @@ use crate::{rng::Rng, sx, Emit};
 use binread::BinRead;
 use candid::IDLArgs;
 
-fn tys_sx(ts: &[T]) -> String { format!("({})", ts.iter().map(|t| t.sx()).collect::<Vec<_>>().join(" ")) }
-fn tys_from(s: &str) -> Vec<T> { sx::parse(s).list().iter().map(T::from_sx).collect() }
+pub fn tys_sx(ts: &[T]) -> String { format!("({})", ts.iter().map(|t| t.sx()).collect::<Vec<_>>().join(" ")) }
+pub fn tys_from(s: &str) -> Vec<T> { sx::parse(s).list().iter().map(T::from_sx).collect() }
 fn show(r: candid::Result<IDLArgs>) -> String {
     match r { Ok(a) => { let vs: Vec<V> = a.args.iter().map(V::from_idl).collect(); if vs.is_empty() { "(ok)".into() } else { format!("(ok {})", vals_sx(&vs)) } } Err(_) => "(err)".into() }
 }
@@ -39,16 +39,28 @@ pub fn eval(op: &str, a: &[&str]) -> Option<String> {
     })
 }
 
-fn rename_env(e: &Env, suffix: &str) -> (Env, impl Fn(&str) -> String) {
+pub fn rename_env(e: &Env, suffix: &str) -> (Env, impl Fn(&str) -> String) {
     let s = suffix.to_string();
     let f = move |x: &str| format!("{}{}", x, s);
     (e.iter().map(|(n, t)| (f(n), t.rename(&f))).collect(), f)
 }
 
-fn mutate_bytes(r: &mut Rng, b: &[u8]) -> Vec<u8> {
+pub fn mutate_bytes(r: &mut Rng, b: &[u8]) -> Vec<u8> {
     let mut m = b.to_vec();
     if m.is_empty() { return m; }
-    match r.below(7) {
+    match r.below(9) {
+        7 | 8 => {
+            // turn the byte at i into the first byte of a ten- or eleven-byte LEB128 number: padded (top byte 0), 2^63 (top byte 1),
+            // or out of the 64-bit range (top byte 2..7f); when i is a length or count this is the interesting boundary
+            let i = r.below(m.len() as u64) as usize;
+            let top = *r.pick(&[0u8, 1, 2, 3, 0x10, 0x40, 0x7f, 0x7e]);
+            let fill = if r.coin(1, 8) { 9 } else { 8 };
+            let low = m[i] & 0x7f;
+            let mut ins = vec![low | 0x80];
+            for _ in 0..fill { ins.push(0x80); }
+            ins.push(top);
+            m.splice(i..i + 1, ins);
+        }
         0 => { let i = r.below(m.len() as u64) as usize; m[i] ^= 1 << r.below(8); }
         1 => { let i = r.below(m.len() as u64) as usize; m[i] = r.next() as u8; }
         2 => { let i = r.below(m.len() as u64) as usize; m.remove(i); }
@@ -60,7 +72,7 @@ fn mutate_bytes(r: &mut Rng, b: &[u8]) -> Vec<u8> {
     m
 }
 
-fn hostile(r: &mut Rng) -> Vec<Vec<u8>> {
+pub fn hostile(r: &mut Rng) -> Vec<Vec<u8>> {
     let mut out: Vec<Vec<u8>> = vec![];
     let h = |s: &str| hex::decode(s.replace(' ', "")).unwrap();
     out.push(h("4449444c 00 00"));
@@ -144,6 +156,45 @@ pub fn generate(thorough: bool, r: &mut Rng, em: &mut Emit) {
             em.stat("expected.mutated");
             em.case_nt("c02.decode", &[env_sx(&ee2), tys_sx(&tes), hexmsg.clone()], true);
         }
+        {   // expected records with extra fields at every position (before, between, after the wire fields) whose types are optional
+            // directly, through a definition, through a chain of definitions -- or not optional at all (must be rejected)
+            let mut ee3 = ee.clone();
+            ee3.push(("OptNat_".into(), T::opt(T::p("nat"))));
+            ee3.push(("Null_".into(), T::p("null")));
+            ee3.push(("Res_".into(), T::p("reserved")));
+            ee3.push(("Chain_".into(), T::var("OptNat_")));
+            ee3.push(("Chain2_".into(), T::var("Chain_")));
+            ee3.push(("Nat_".into(), T::p("nat")));
+            ee3.push(("List_".into(), T::opt(T::rec(vec![(0, T::p("nat")), (1, T::var("List_"))]))));
+            let extras: [T; 9] = [T::var("OptNat_"), T::var("Null_"), T::var("Res_"), T::var("Chain_"), T::var("Chain2_"), T::var("List_"),
+                                  T::opt(T::p("text")), T::var("Nat_"), T::p("nat")];
+            fn insert_fields(r: &mut Rng, t: &T, extras: &[T]) -> T {
+                match t {
+                    T::Rec(fs) => {
+                        let mut out: Vec<(u32, T)> = fs.iter().map(|(i, t)| (*i, insert_fields(r, t, extras))).collect();
+                        let n = r.range(1, 2);
+                        for _ in 0..n {
+                            let id = match r.below(3) { 0 => r.below(8) as u32, 1 => 50 + r.below(60) as u32, _ => r.next() as u32 };
+                            if !out.iter().any(|f| f.0 == id) { out.push((id, r.pick(extras).clone())); }
+                        }
+                        T::rec(out)
+                    }
+                    T::Opt(x) => T::opt(insert_fields(r, x, extras)),
+                    T::Vec(x) => T::vec(insert_fields(r, x, extras)),
+                    T::Variant(fs) => T::variant(fs.iter().map(|(i, t)| (*i, insert_fields(r, t, extras))).collect()),
+                    _ => t.clone(),
+                }
+            }
+            let has_rec = |t: &T| { fn go(t: &T) -> bool { match t { T::Rec(_) => true, T::Opt(x) | T::Vec(x) => go(x), T::Variant(fs) => fs.iter().any(|f| go(&f.1)), _ => false } } go(t) };
+            if same.iter().any(|t| has_rec(t)) || ee.iter().any(|d| has_rec(&d.1)) {
+                for _ in 0..3 {
+                    let ee4: Env = ee3.iter().map(|(n, t)| (n.clone(), if n.ends_with("__") || !ee.iter().any(|d| &d.0 == n) { t.clone() } else { insert_fields(r, t, &extras) })).collect();
+                    let tes: Vec<T> = same.iter().map(|t| insert_fields(r, t, &extras)).collect();
+                    em.stat("expected.inserted-fields");
+                    em.case_nt("c02.decode", &[env_sx(&ee4), tys_sx(&tes), hexmsg.clone()], true);
+                }
+            }
+        }
         {   // unrelated expected types
             let tes: Vec<T> = (0..nargs).map(|_| gen_type(r, &enames, 2, &cfg)).collect();
             em.case_nt("c02.decode", &[env_sx(&ee), tys_sx(&tes), hexmsg.clone()], true);
@@ -151,6 +202,9 @@ pub fn generate(thorough: bool, r: &mut Rng, em: &mut Emit) {
         // byte-level mutants, decoded untyped and at the original types
         for _ in 0..6 {
             let m = mutate_bytes(r, &msg);
+            // a mutated count of zero-sized elements can ask for 2^60 values: with no quota set the decoder is entitled to try
+            // (C06/C07 cover the metered behaviour), so such inputs are left out here
+            if crate::ops::c07::decode_untyped(&m, &crate::ops::c07::config(Some(20_000_000), None)) == crate::ops::c07::Out::Quota { em.stat("bytes.mutant.dropped-unbounded-work"); continue; }
             let hm = sx::hex(&m);
             em.stat("bytes.mutant");
             em.case_nt("c02.header", &[hm.clone()], true);
